@@ -124,7 +124,7 @@ def r2(prog, run, hs):
 
 def r3(prog, run, hs):
     rid = run.rule('C16.R3', 'a stanza whose from is neither empty nor the authenticated full/bare JID is never routed; an empty from is '
-                             'stamped from the authenticated jid before routing', floor=3)
+                             'stamped from the authenticated jid before routing', floor=2)   # one foreign-from verdict + at least one stamped routing path (today two: bare for subscription presences, full otherwise)
     emits = [i for i, n in hs.calls(IC + '::elementReceived')]
     if not emits:
         raise AnalysisBroken('C16.R3: emit elementReceived not found')
@@ -166,7 +166,7 @@ def r3(prog, run, hs):
             cn = f.cname(n)
             if cn == 'QDomElement::setAttribute' and f.strval(n['args'][0]) == 'from':
                 v = f.fmt(n['args'][1])
-                good = v in (JIDX, BARE)
+                good = all(x in (JIDX, BARE) for x in _value_leaves(f, n['args'][1]))
                 return st + (('stamp', good, v[:60]),)
             if cn == IC + '::elementReceived':
                 return st + (('emit', f.fmt(n['args'][0])[:40]),)
@@ -193,6 +193,18 @@ def r3(prog, run, hs):
             run.ok(rid, hs.loc(emits[0]), 'empty from stamped with %s before routing' % stamps[-1][2])
     if n_emit == 0:
         raise AnalysisBroken('C16.R3: no routing path found for an authenticated client with empty from')
+
+
+def _value_leaves(f, nid, depth=0):
+    """canonical texts of the values an expression may take (through ?: and single-assignment locals)"""
+    n = f.nodes[f.skip(nid)]
+    if n['k'] == 'cond' and depth < 6:
+        return _value_leaves(f, n['a'], depth + 1) + _value_leaves(f, n['b'], depth + 1)
+    if n['k'] == 'var' and n.get('vk') == 'local' and depth < 6:
+        d = f.single_def(n['decl'])
+        if d is not None:
+            return _value_leaves(f, d, depth + 1)
+    return [f.fmt(nid)]
 
 
 def r4(prog, run):
